@@ -104,7 +104,8 @@ pub fn spec(check: &str, tier: &str) -> Option<CheckSpec> {
             progs.extend(fam::spin_lock_family(tier));
             progs.extend(fam::lock_arrival_family(tier));
             progs.extend(fam::mix_programs(tier));
-            level.push_str("; SPIN+LOCK; MIX (blocks of different primitive kinds)");
+            progs.extend(fam::yield_ins_family(tier));
+            level.push_str("; SPIN+LOCK; MIX (blocks of different primitive kinds); YINS (yield_now inserted at every position of small A-sc / LOCK programs)");
             Some(CheckSpec {
                 id: "C01",
                 level: "model_checking",
@@ -572,7 +573,8 @@ pub fn spec(check: &str, tier: &str) -> Option<CheckSpec> {
                 progs.extend(fam::lock_sentinels());
                 progs.extend(fam::a_sc_nested(1, 2));
                 progs.extend(fam::yield_bases(tier));
-                level = "A-sc 2 threads x <=2 ops; nested spawn (main -> T1 -> T2); LOCK 2 threads <=6 ops; sentinels (3 threads); yield / spin / wait-loop programs (a thread that yielded and runs again, hand-over or late spawn after a yield); bounds 0..6, #ops and unbounded".to_string();
+                progs.extend(fam::yield_ins_family(tier));
+                level = "A-sc 2 threads x <=2 ops; nested spawn (main -> T1 -> T2); LOCK 2 threads <=6 ops; sentinels (3 threads); yield / spin / wait-loop programs (a thread that yielded and runs again, hand-over or late spawn after a yield); YINS (yield_now inserted at every position of small A-sc / LOCK programs); bounds 0..6, #ops and unbounded".to_string();
             } else {
                 progs.extend(fam::a_sc(1, 2, 3, 6, false));
                 progs.extend(fam::a_sc(2, 2, 2, 4, false));
@@ -585,7 +587,8 @@ pub fn spec(check: &str, tier: &str) -> Option<CheckSpec> {
                 progs.extend(fam::asc_sentinels());
                 progs.extend(fam::lock_sentinels());
                 progs.extend(fam::yield_bases(tier));
-                level = "A-sc 2 threads x <=3 ops, 3 threads; LOCK 2-3 threads <=8 ops; WAIT quick level; yield / spin / wait-loop programs; bounds 0..6 and unbounded".to_string();
+                progs.extend(fam::yield_ins_family(tier));
+                level = "A-sc 2 threads x <=3 ops, 3 threads; LOCK 2-3 threads <=8 ops; WAIT quick level; yield / spin / wait-loop programs; YINS; bounds 0..6 and unbounded".to_string();
             }
             Some(CheckSpec {
                 id: "C15",
